@@ -9,7 +9,7 @@ THEOREMS = ["GmqttVerif.Alias.outbound_alias_sound", "GmqttVerif.Alias.outbound_
             "GmqttVerif.Alias.outbound_no_alias_when_zero", "GmqttVerif.Alias.check_panics_when_zero",
             "GmqttVerif.Alias.inbound_alias", "GmqttVerif.Alias.inbound_alias_fails_as_is",
             "GmqttVerif.Alias.inbound_alias_as_is_panics", "GmqttVerif.Alias.inbound_bind_then_use"]
-COMPS = ["aliasfifo", "aliasin"]
+COMPS = ["aliasfifo", "aliasin", "broker"]
 
 TOPICS = ["a", "b", "c", "d/e", "f", "g", "h", "i"]
 
@@ -253,13 +253,19 @@ def rec_f42(info):
     return all(a == b or (a.startswith("disc:") and b in ("hung", "closed")) for a, b in zip(asis, impl))
 
 
-RECOGNISERS = {"f02": rec_f02, "f42": rec_f42}
+def _f40(info):
+    from . import c13wire
+    return c13wire.rec_f40(info)
+
+RECOGNISERS = {"f02": rec_f02, "f42": rec_f42, "alias_property_after_size_check": _f40}
 
 
 def streams(tier):
     q = tier == "quick"
+    from . import c13wire
     return [(core.Stream("aliasfifo", "aliasfifo", gen_fifo, pred_fifo, nontrivial_fifo, keep_prefix=1), 40000 if q else 1000000),
-            (core.Stream("aliasin", "aliasin", gen_in, pred_in, nontrivial_in, keep_prefix=1, timeout=900), 6000 if q else 200000)]
+            (core.Stream("aliasin", "aliasin", gen_in, pred_in, nontrivial_in, keep_prefix=1, timeout=900), 3000 if q else 200000),
+            c13wire.stream(tier)]
 
 
 def run(r):
